@@ -1,9 +1,58 @@
 (* C09 - Clean reports every stale item, deletes only in clean mode, touches nothing else. *)
-From Coq Require Import List NArith Bool Lia.
+From Coq Require Import String.
+From Coq Require Import List NArith Bool Lia Permutation.
+Local Open Scope string_scope.
 Import ListNotations.
 From Snaps Require Import Base.Bytes Base.Assoc.
-From Snaps Require Import Model.Frame Model.PathModel Model.Mode Model.Api Model.Natural Model.Clean.
-From Snaps Require Import Proofs.CleanP.
+From Snaps Require Import Model.Frame Model.PathModel Model.Mode Model.Api Model.Natural Model.Clean Model.RunFilter.
+From Snaps Require Import Proofs.FrameP Proofs.CleanP Proofs.CleanEntriesP Proofs.TestIdP Proofs.RunFilterP.
+
+(* COMPLETE AND EXACT REPORT. For a well-formed addressed file with distinct recognised ids, in every
+   mode: the entries reported obsolete are exactly those that are neither registered (addressed in this
+   run) nor skip-protected - in file order, none missing, none extra. *)
+Theorem C09_report_exact : forall reg skp update sort es,
+  Forall centry_ok es -> NoDup (map fst es) ->
+  fst (examine_file reg skp update sort (render (map to_entry es))) =
+  map fst (filter (fun e => negb (kept reg skp e)) es).
+Proof. exact obsolete_exact. Qed.
+Print Assumptions C09_report_exact.
+
+(* every id go-snaps writes for a Go test named Test... is recognised (so the theorem applies to
+   every entry the library itself created) *)
+Theorem C09_ids_recognised : forall name k,
+  is_prefix (B "Test") name = true -> no_space name -> recognised (snapshot_occ_fmt name k).
+Proof. exact recognised_go_name. Qed.
+Print Assumptions C09_ids_recognised.
+
+(* full description of what happens to one file: when it is rewritten and with what *)
+Theorem C09_file_result : forall reg skp update sort es,
+  Forall centry_ok es -> NoDup (map fst es) ->
+  let obsolete := map fst (filter (fun e => negb (kept reg skp e)) es) in
+  let ids := map fst es in
+  let should_sort := sort && negb (is_sorted_nat ids) in
+  let should_update := update && (match obsolete with [] => false | _ => true end) in
+  examine_file reg skp update sort (render (map to_entry es)) =
+  (obsolete,
+   if negb should_update && negb should_sort then None
+   else Some (render (map to_entry
+          (flat_map (pick (stay reg skp update es)) (if should_sort then sort_nat ids else ids))))).
+Proof. exact examine_file_entries. Qed.
+Print Assumptions C09_file_result.
+
+(* in every mode other than clean NO entry is removed (sorting may only reorder) ... *)
+Theorem C09_report_only_keeps_all : forall reg skp es, stay reg skp false es = es.
+Proof. exact stay_report_only. Qed.
+(* ... and in clean mode exactly the reported entries are removed *)
+Theorem C09_clean_removes_exactly : forall reg skp es, stay reg skp true es = filter (kept reg skp) es.
+Proof. exact stay_clean. Qed.
+Theorem C09_rewrite_is_permutation_of_staying : forall reg skp update sort es nf,
+  Forall centry_ok es -> NoDup (map fst es) ->
+  snd (examine_file reg skp update sort (render (map to_entry es))) = Some nf ->
+  exists out, nf = render (map to_entry out) /\ Permutation out (stay reg skp update es).
+Proof. exact rewrite_content. Qed.
+Print Assumptions C09_report_only_keeps_all.
+Print Assumptions C09_clean_removes_exactly.
+Print Assumptions C09_rewrite_is_permutation_of_staying.
 
 (* when neither deleting nor sorting is allowed, Clean leaves every file as it was *)
 Theorem C09_readonly : forall s sort_opt count,
@@ -18,13 +67,6 @@ Theorem C09_ci_untouched : forall s sort_opt count,
   s_fs (fst (clean_run s sort_opt count)) = s_fs s /\ cr_writes (snd (clean_run s sort_opt count)) = [].
 Proof. exact clean_ci_readonly. Qed.
 Print Assumptions C09_ci_untouched.
-
-(* a used file is rewritten only if (deleting allowed and a stale entry found) or sorting allowed *)
-Theorem C09_rewrite_only_if : forall registered skipped update sort f o nf,
-  examine_file registered skipped update sort f = (o, Some nf) ->
-  (update = true /\ o <> []) \/ sort = true.
-Proof. exact examine_file_rewrite_iff. Qed.
-Print Assumptions C09_rewrite_only_if.
 
 (* only unaddressed files whose name contains ".snap", directly inside a visited directory,
    are ever reported obsolete (and hence removed) *)
@@ -41,3 +83,14 @@ Theorem C09_only_snap_files : forall dir paths standalone names acc,
                mem_bytes p paths = false /\ mem_bytes p standalone = false.
 Proof. exact examine_files_inner_snap. Qed.
 Print Assumptions C09_only_snap_files.
+
+Example C09_example :
+  let es := [(B "TestA - 1", B "a"); (B "TestOld - 1", B "stale"); (B "TestA - 2", B "b")] in
+  Forall centry_ok es /\
+  examine_file [B "TestA - 1"; B "TestA - 2"] [] true false (render (map to_entry es)) =
+  ([B "TestOld - 1"], Some (render (map to_entry [(B "TestA - 1", B "a"); (B "TestA - 2", B "b")]))) /\
+  examine_file [B "TestA - 1"; B "TestA - 2"] [] false false (render (map to_entry es)) = ([B "TestOld - 1"], None).
+Proof.
+  split; [|split; vm_compute; reflexivity].
+  repeat constructor; try (vm_compute; reflexivity); try (vm_compute; intuition discriminate).
+Qed.
